@@ -415,6 +415,54 @@ PROPS = {
                  "a10 verif hook A (src/verif.rs)",
                  "decoding of iovec/msghdr from the SQE in harness/src/props/c10.rs (layouts asserted against libc)"],
     ),
+    "C12": dict(
+        driver="C12",
+        model="Model/Teardown.v",
+        run_fn="run_tdcase",
+        theorems=["C12_teardown_memory_safe", "C12_teardown_log_safe", "C12_teardown_releases_everything",
+                  "C12_teardown_exactly_once", "C12_teardown_of_populations",
+                  "C12_fd_dropped_after_ring_refuted", "C12_abandoned_ops_beyond_cq_capacity_refuted",
+                  "C12_teardown_releases_everything_fixed"],
+        rule="one splitmix64 stream per case (VERIF_SEED, index) on the simulated kernel: a Ring with (sq, cq) entries in "
+             "{(2,2), (2,4), (4,4), (4,8)} and random 32-bit start counters; 0..2 SubmissionQueue clones; 0..3 AsyncFds "
+             "over fake descriptors; 0..4 operations, each on a random AsyncFd (read into a Vec, multishot accept) or "
+             "owning a SubmissionQueue (socket), each in a starting state from {never polled, submission queued, in "
+             "flight, final completion processed but result not taken, finished} (one case in three with mostly "
+             "in-flight operations so that the drain overflows), queued ones limited to the queue size; 0..2 "
+             "ReadBufPools with 0..2 ReadBufs each, obtained through a completed pool read on a throw-away descriptor; "
+             "the drop order is a random permutation of all objects with every future before the AsyncFd it borrows "
+             "(a quarter each: Ring first, Ring last) and 0..2 kernel completions of random operations inserted at "
+             "random positions; every case runs in a forked child. Thorough: 20 000 cases, all 120 orders of a fixed "
+             "population of five objects (ring, clone, fd, in-flight read on it, pool; the 60 orders the borrow checker "
+             "accepts are run), and 48 populations on the real kernel (pipes, in-flight/queued/unstarted reads, pools "
+             "with buffers from real reads) checked only by /proc/self/fd, /proc/self/maps and the number of live heap "
+             "blocks; non-trivial = at least three drops; distinct by the Coq case term",
+        assumptions=["kernel contract K1-K4 (DESIGN.md §5) as the simulated kernel implements it: submissions consumed "
+                     "in order on enter; CLOSE executes at once; ASYNC_CANCEL of an in-flight request posts the target's "
+                     "final completion (cancellation always wins in these cases); REGISTER_SYNC_CANCEL(ANY|ALL) posts a "
+                     "final completion for everything in flight; a completion goes into the ring when there is room and "
+                     "the overflow list is empty, else onto the overflow list; every enter flushes the overflow list "
+                     "into free slots",
+                     "no kernel submission thread (IORING_SETUP_SQPOLL off); munmap, close and io_uring_register succeed",
+                     "a future is not dropped after the AsyncFd it borrows (borrows_ok: enforced by the borrow checker); "
+                     "every object is dropped at most once (ownership; the model ignores a second drop)",
+                     "operation resources do not themselves hold a ReadBuf / ReadBufPool (reads into pool buffers are "
+                     "completed before the teardown starts); ReadBufs are owned buffers (release writes the pool ring)",
+                     "the theorems are stated over any state satisfying the invariant wf; init_wf proves it for every "
+                     "population whose operations name existing AsyncFds and whose ReadBufs name existing pools",
+                     "H13 (fd-dropped-after-ring) and H14 (abandoned-ops-beyond-cq-capacity) are named exceptions of "
+                     "C12_teardown_releases_everything, each with a witness; the model wired into the correspondence is "
+                     "drop_ring (the code as it is), drop_ring_fixed models proposed_fix_h14.diff"],
+        trusted=["simulated kernel harness/src/simk.rs (twin of the kernel contract K1-K8; notes a closed ring "
+                 "descriptor at the next ring call)",
+                 "tracking allocator harness/src/alloc.rs (frees of watched addresses, frees of blocks that are not live)",
+                 "a10 verif hook A (src/verif.rs): enter, register, mmap, munmap, close",
+                 "fcntl(F_GETFD) as the account of whether the ring descriptor is open; /proc/self/fd and "
+                 "/proc/self/maps in the real-kernel tier",
+                 "how the driver learns addresses: operation state = the heap-block word of the future (checked against "
+                 "user_data once submitted), pool allocations = ring_addr of the registration and the lowest buffer "
+                 "address in the ring"],
+    ),
     "C14": dict(
         driver="C14",
         model="Model/BufTraits.v",
